@@ -198,8 +198,69 @@ def _discharge_once(ob, timeout_ms, use_cvc5, seed, rounds=None):
     return ob
 
 
+def generate_lemma(unit, name):
+    """the two induction obligations of a lemma (the lemma's own axiom is NOT among the hypotheses)"""
+    from .dsl import FuncC
+    from .sorts import V, z, INT, BOOL
+    lem = next(l for l in unit.lemmas if l["name"] == name)
+    res = {"target": "lemma:" + name, "concrete": None, "obligations": [], "status": "ok", "detail": "", "info": {"paths": 2, "file": "(contract lemma)",
+           "source_hash": "-", "line": 0}}
+    obs = []
+    try:
+        eng = E.Engine(unit)
+        fc = FuncC(unit, None, None, "lemma:" + name, lem["params"], BOOL)
+        fc.kind = "function"
+        k = lem["induct"]
+
+        def setup(extra_locals=None):
+            P = E.Path(eng, fc, None, None, None, None, [], E.Oracle([]), 1)
+            heap = {key: z3.Const("H_%s_%s" % key, z3.ArraySort(z3.IntSort(), z(srt))) for key, srt in eng.all_heap_keys().items()}
+            P.env = E.Env({}, heap, z3.Const("alloc0", z3.ArraySort(z3.IntSort(), z3.BoolSort())), spec=True)
+            P.axioms_added = {"lemma:" + name}        # never use the lemma to prove itself
+            P.selfname = None
+            for p_, srt in lem["params"].items():
+                P.env.locals[p_] = V(z3.Const(p_, z(srt)), srt)
+                P.wf(P.env.locals[p_])
+            return P
+        kv = z3.Int(k)
+        req = lambda P, env: z3.And(*[P.ev_spec(r, env).t for r in lem["requires"]]) if lem["requires"] else z3.BoolVal(True)
+        ens = lambda P, env: z3.And(*[P.ev_spec(e_, env).t for e_ in lem["ensures"]])
+        unf = lambda P: [P.assume_use(u_, P.env) for u_ in lem["unfold"]]
+        # base
+        P = setup()
+        P.assume(kv <= 0)
+        unf(P)
+        P.assume(req(P, P.env))
+        P.oblige("lemma:%s/base(%s<=0)" % (name, k), ens(P, P.env), "lemma", 0)
+        obs.extend(P.obligations)
+        # step
+        P = setup()
+        P.assume(kv >= 1)
+        prev = E.Env(dict(P.env.locals), P.env.heap, P.env.alloc, spec=True)
+        prev.locals[k] = V(kv - 1, INT)
+        gens = []
+        for g in lem["generalize"]:
+            srt = lem["params"][g]
+            c = z3.Const(g + "!ih", z(srt))
+            prev.locals[g] = V(c, srt)
+            gens.append(c)
+        ih = z3.Implies(req(P, prev), ens(P, prev))
+        P.assume(z3.ForAll(gens, ih) if gens else ih)
+        unf(P)
+        P.assume(req(P, P.env))
+        P.oblige("lemma:%s/step(%s-1=>%s)" % (name, k, k), ens(P, P.env), "lemma", 0)
+        obs.extend(P.obligations)
+    except E.StaleContract as e:
+        res["status"], res["detail"] = "stale-contract", str(e)
+    except Exception:
+        res["status"], res["detail"] = "crash", traceback.format_exc()[-1500:]
+    return res, obs
+
+
 def generate_target(unit, cls, fn, concrete=None):
     """symbolic execution of one function -> (result skeleton, list of Obligation objects)"""
+    if cls == "lemma:":
+        return generate_lemma(unit, fn)
     eng = E.Engine(unit)
     res = {"target": (cls + "." if cls else "") + fn, "concrete": concrete or cls, "obligations": [], "status": "ok", "detail": "", "info": {}}
     t0 = time.time()
@@ -280,7 +341,7 @@ def verify_unit(unit_loader, timeout_ms=10000, jobs=8, use_cvc5=False):
         # reachability guard: at least one normal exit must be reachable under the assumptions
         exits = [ob for ob in obs if ob.kind == "vacuity-exit"]
         keep = [ob for ob in obs if ob.kind != "vacuity-exit"]
-        if not exits and res["status"] == "ok" and keep:
+        if not exits and res["status"] == "ok" and keep and not res["target"].startswith("lemma:"):
             fcq = res["target"]
             dead = E.Obligation("%s/vacuity:normal-exit-reachable" % fcq, [], None, "vacuity", 0, 0)
             always_raises = any(ob.kind == "raises" for ob in keep) and not any(ob.kind == "post" for ob in keep)
